@@ -167,6 +167,73 @@ pub fn exec(op: &str, a: &[Vec<u8>]) -> Out {
             o.push(curve25519_dalek::traits::IsIdentity::is_identity(&d) as u8);
             Out::Ok(o)
         }
+        // [s, 16 bytes v]: the provided ff methods, which sit on top of the implemented ones
+        "gp.scalar_extras" => {
+            let s = need!(sc(&a[0]));
+            if a[1].len() != 16 {
+                return Out::Rej;
+            }
+            let v = u128::from_le_bytes(a[1][..].try_into().unwrap());
+            let mut o = vec![];
+            o.extend_from_slice(Field::cube(&s).as_bytes());
+            o.extend_from_slice(Field::pow(&s, [3u64]).as_bytes());
+            o.extend_from_slice(Field::pow_vartime(&s, [3u64]).as_bytes());
+            o.extend_from_slice(Field::pow_vartime(&s, [v as u64, (v >> 64) as u64]).as_bytes());
+            o.push(Field::is_zero_vartime(&s) as u8);
+            o.push(PrimeField::is_even(&s).unwrap_u8());
+            o.extend_from_slice(<Scalar as PrimeField>::from_u128(v).as_bytes());
+            o.extend_from_slice(&opt(<Scalar as PrimeField>::from_str_vartime(&format!("{}", v))));
+            o.extend_from_slice(&opt(<Scalar as PrimeField>::from_str_vartime(&format!("0{}", v))));
+            Out::Ok(o)
+        }
+        // [P (Edwards encoding), Q (Edwards encoding), choice]: CofactorGroup / SubgroupPoint surface not covered by
+        // gp.cofactor and gp.subgroup_ops
+        "gp.point_extras" => {
+            let p = need!(pt(&a[0]));
+            let q = need!(pt(&a[1]));
+            let c = subtle::Choice::from(a[2][0] & 1);
+            let mut o = vec![];
+            o.push(bool::from(CofactorGroup::is_small_order(&p)) as u8);
+            match Option::<SubgroupPoint>::from(CofactorGroup::into_subgroup(p)) {
+                Some(x) => {
+                    o.push(1);
+                    o.extend_from_slice(&GroupEncoding::to_bytes(&x));
+                }
+                None => o.extend_from_slice(&[0u8; 33]),
+            }
+            let sa: SubgroupPoint = CofactorGroup::clear_cofactor(&p);
+            let sb: SubgroupPoint = CofactorGroup::clear_cofactor(&q);
+            o.push(subtle::ConstantTimeEq::ct_eq(&sa, &sb).unwrap_u8());
+            o.push((sa == sb) as u8);
+            o.push(subtle::ConstantTimeEq::ct_eq(&sa, &sa).unwrap_u8());
+            o.extend_from_slice(&GroupEncoding::to_bytes(&<SubgroupPoint as subtle::ConditionallySelectable>::conditional_select(&sa, &sb, c)));
+            o.extend_from_slice(&GroupEncoding::to_bytes(&SubgroupPoint::default()));
+            let mut z = sa;
+            zeroize::Zeroize::zeroize(&mut z);
+            o.extend_from_slice(&GroupEncoding::to_bytes(&z));
+            o.push(bool::from(Group::is_identity(&(sa - sa))) as u8);
+            o.push(bool::from(Group::is_identity(&sa)) as u8);
+            o.push(bool::from(CofactorGroup::is_small_order(&EdwardsPoint::from(sa))) as u8);
+            // Ristretto: cofactor 1
+            let r = RistrettoPoint::mul_base(&Scalar::from(a[2][0] as u64));
+            match Option::<RistrettoPoint>::from(CofactorGroup::into_subgroup(r)) {
+                Some(x) => {
+                    o.push(1);
+                    o.extend_from_slice(&GroupEncoding::to_bytes(&x));
+                }
+                None => o.extend_from_slice(&[0u8; 33]),
+            }
+            o.push(bool::from(CofactorGroup::is_small_order(&r)) as u8);
+            Out::Ok(o)
+        }
+        // [rng bytes]: Group::random of the three groups fed by a replaying RNG
+        "gp.random_points" => {
+            let mut o = vec![];
+            o.extend_from_slice(&GroupEncoding::to_bytes(&<EdwardsPoint as Group>::random(ByteRng::new(&a[0]))));
+            o.extend_from_slice(&GroupEncoding::to_bytes(&<SubgroupPoint as Group>::random(ByteRng::new(&a[0]))));
+            o.extend_from_slice(&GroupEncoding::to_bytes(&<RistrettoPoint as Group>::random(ByteRng::new(&a[0]))));
+            Out::Ok(o)
+        }
         // [valid Edwards encoding] -> clear_cofactor, into_subgroup some?, is_torsion_free, double, is_identity
         "gp.cofactor" => {
             let p = need!(pt(&a[0]));
